@@ -97,3 +97,42 @@ def degenerate(rng, bits):
   out.append(('smallfactor', 3 * rprime(rng, bits - 2)))
   out.append(('cube', rprime(rng, bits // 3) ** 3))
   return out
+
+
+def shared_smooth(rng, bits, gbits=64, smooth_bits=10, q_smooth=False):
+  """primes p, q with p-1 and q-1 sharing a smooth factor g of ~gbits bits; p-1 fully smooth;
+  q-1 smooth only if q_smooth."""
+  small = [x for x in range(3, 1 << smooth_bits) if gmpy2.is_prime(x)]
+  rng.shuffle(small)
+  g = 2
+  for x in small:
+    if g.bit_length() >= gbits:
+      break
+    g *= x
+  def smooth_mult(target_bits):
+    # p - 1 = g * (distinct small primes not in g): squarefree, so it divides any Pollard
+    # product that contains every prime below 2^smooth_bits
+    rest = [x for x in small if g % x != 0]
+    for _ in range(600):
+      rng.shuffle(rest)
+      m = g
+      for x in rest:
+        if m.bit_length() >= target_bits - 1:
+          break
+        m *= x
+      if gmpy2.is_prime(m + 1) :
+        return m + 1
+    return None
+  def rough_mult(target_bits):
+    for _ in range(5000):
+      c = int(gmpy2.next_prime(rng.getrandbits(target_bits - g.bit_length())))
+      if gmpy2.is_prime(g * c + 1):
+        return g * c + 1
+    return None
+  for _ in range(50):
+    p = smooth_mult(bits // 2)
+    q = smooth_mult(bits // 2) if q_smooth else rough_mult(bits // 2)
+    if p and q and p != q:
+      return p, q, g
+  raise RuntimeError('shared_smooth: no primes found (bits=%d gbits=%d smooth_bits=%d)' %
+                     (bits, gbits, smooth_bits))
